@@ -123,6 +123,9 @@ def variants(tier):
         out.append((f"bool-u3:{tag}", lambda n, f, e=encs[0]: PType(n, "Boolean", e), 3, list(range(8)), (0,)))
         out.append((f"bool-s4:{tag}", lambda n, f, e=encs[1]: PType(n, "Boolean", e), 4, list(range(16)), (0,)))
         out.append((f"bool-f16:{tag}", lambda n, f, e=encs[2]: PType(n, "Boolean", e), 16, F16_PATTERNS, (0,)))
+    # a label that is the empty string (falsy): still a label
+    out.append(("enum-u3:empty-label", lambda n, f: PType(n, "Enumerated", IntEnc(3), enum=((0, ""), (1, "ONE"), (2, " "), (7, "0"))), 3, list(range(8)), (0,)))
+    out.append(("enum-f16:empty-label", lambda n, f: PType(n, "Enumerated", FloatEnc(16), enum=((0.0, ""), (1.0, "ONE"))), 16, F16_PATTERNS, (0,)))
     # wide integer enumerations: listed values beyond 2**53 (not representable as doubles), their neighbours unlisted
     W = [0, 1, 2 ** 53, 2 ** 53 + 1, 2 ** 53 + 2, 0xDEADBEEFCAFEBABE, 0xDEADBEEFCAFEBABE - 1, 0xDEADBEEFCAFEB800, 2 ** 64 - 1, 2 ** 64 - 2, 2 ** 63, 2 ** 63 - 1]
     out.append(("enum-u64:wide", lambda n, f: PType(n, "Enumerated", IntEnc(64), enum=((0, "ZERO"), (2 ** 53 + 1, "ODD"), (0xDEADBEEFCAFEBABE, "BEEF"), (2 ** 64 - 1, "ALL_ONES"),
